@@ -1,5 +1,116 @@
-/- Line-protocol driver for the C01 model (stub until the model exists). -/
-import ForML.Model.Sexp
-open ForML
+/-
+Line-protocol driver for the C01 model (segment → symbol table, reference interpreter, direct
+graph evaluation).
 
-def main : IO Unit := driverLoop (fun _ => .atom "no-model")
+  seg  ::= ((worker*) (edge*) head tail (gid*))
+  worker ::= (uid gid actor stateful szin szout)          stateful ::= true | false
+  edge ::= (pub pubPort sub a|t|l idx)
+  ops:
+    (compile seg assets (uid*))        -> (ok (symbol*)) | (error assembly|keyError|assertion|unexpected)
+    (run assets (symbol*))             -> (ok ((key val)*) (key*) (key*) agree)     vals, trace, sinks, memo==value
+    (eval seg assets)                  -> (ok ((uid val)*) none|(some val))
+    (dfs seg)                          -> (ok (uid*))
+    (wf seg assets ((uid rank)*))      -> (ok wf assetsOK)
+    (all seg assets (uid*) ((uid rank)*)) -> (all <compile> <run|skip> <eval> <dfs> <wf>)
+-/
+import ForML.Model.Sexp
+import ForML.Model.SymbolsSexp
+import ForML.Model.Compile
+import ForML.Model.GraphEval
+open ForML ForML.Flow
+
+def bool? : Sexp → Option Bool
+  | .atom "true" => some true
+  | .atom "false" => some false
+  | _ => none
+
+def worker? : Sexp → Option Worker
+  | .list [u, g, a, st, i, o] => do
+    pure ⟨← u.nat?, ← g.nat?, ← a.nat?, ← bool? st, ← i.nat?, ← o.nat?⟩
+  | _ => none
+
+def edge? : Sexp → Option Edge
+  | .list [p, pp, s, .atom k, i] => do
+    let port ← match k with
+      | "a" => i.nat?.map InPort.apply
+      | "t" => some InPort.train
+      | "l" => some InPort.label
+      | _ => none
+    pure ⟨← p.nat?, ← pp.nat?, ← s.nat?, port⟩
+  | _ => none
+
+def segment? : Sexp → Option Segment
+  | .list [.list ws, .list es, h, t, x] => do
+    pure ⟨← ws.mapM worker?, ← es.mapM edge?, ← h.nat?, ← t.nat?, ← x.natList?⟩
+  | _ => none
+
+def rank? : Sexp → Option (Uid → Nat)
+  | .list ps => do
+    let tbl ← ps.mapM (fun p => match p with | .list [u, r] => do pure ((← u.nat?), (← r.nat?)) | _ => none)
+    pure (fun u => ((tbl.find? (fun p => p.1 = u)).map (·.2)).getD 0)
+  | _ => none
+
+def cerrName : CErr → String
+  | .assembly => "assembly" | .keyError => "keyError" | .assertion => "assertion" | .unexpected => "unexpected"
+
+def compileOut (g : Segment) (A : Option Assets) (order : List Uid) : Sexp :=
+  match compile g A order with
+  | .ok t => .list [.atom "ok", Table.toSexp t]
+  | .error e => .list [.atom "error", .atom (cerrName e)]
+
+def runOut (A : Option Assets) (t : Table) : Sexp :=
+  let m := run A t
+  let agree := t.all (fun s =>
+    match m.get s.id with
+    | some v => toString v.toSexp == toString (Table.value A t t.fuel s.id).toSexp
+    | none => false)
+  let once := m.trace.length == t.length
+  let ms := Memo.toSexp m
+  match ms with
+  | .list [vals, trace] =>
+    .list [.atom "ok", vals, trace, .list (t.sinks.map Key.toSexp), Sexp.ofBool (agree && once)]
+  | _ => .atom "internal"
+
+def evalOut (g : Segment) (A : Option Assets) : Sexp :=
+  let r := g.evalGraph A
+  .list [.atom "ok", .list (r.values.map fun (u, v) => .list [.ofNat u, v.toSexp]),
+         Sexp.ofOption Val.toSexp r.commit]
+
+def dfsOut (g : Segment) : Sexp := .list [.atom "ok", Sexp.ofNats g.visitOrder]
+
+def wfOut (g : Segment) (A : Option Assets) (rank : Uid → Nat) : Sexp :=
+  .list [.atom "ok", Sexp.ofBool (g.wf rank), Sexp.ofBool (g.assetsOK A)]
+
+def stepC01 : Sexp → Sexp
+  | .list [.atom "compile", seg, assets, order] =>
+    match segment? seg, Assets.ofSexp? assets, order.natList? with
+    | some g, some A, some o => compileOut g A o
+    | _, _, _ => .atom "bad-op"
+  | .list [.atom "run", assets, tbl] =>
+    match Assets.ofSexp? assets, Table.ofSexp? tbl with
+    | some A, some t => runOut A t
+    | _, _ => .atom "bad-op"
+  | .list [.atom "eval", seg, assets] =>
+    match segment? seg, Assets.ofSexp? assets with
+    | some g, some A => evalOut g A
+    | _, _ => .atom "bad-op"
+  | .list [.atom "dfs", seg] =>
+    match segment? seg with
+    | some g => dfsOut g
+    | none => .atom "bad-op"
+  | .list [.atom "wf", seg, assets, rk] =>
+    match segment? seg, Assets.ofSexp? assets, rank? rk with
+    | some g, some A, some r => wfOut g A r
+    | _, _, _ => .atom "bad-op"
+  | .list [.atom "all", seg, assets, order, rk] =>
+    match segment? seg, Assets.ofSexp? assets, order.natList?, rank? rk with
+    | some g, some A, some o, some r =>
+      let c := compileOut g A o
+      let rn := match compile g A o with
+        | .ok t => runOut A t
+        | .error _ => .atom "skip"
+      .list [.atom "all", c, rn, evalOut g A, dfsOut g, wfOut g A r]
+    | _, _, _, _ => .atom "bad-op"
+  | _ => .atom "bad-op"
+
+def main : IO Unit := driverLoop stepC01
